@@ -30,6 +30,7 @@ import dns.rdataset
 import dns.rdatatype
 import dns.rrset
 import dns.set
+import dns.ttl
 
 from lib import Err
 from lib import Hang as lib_Hang
@@ -154,6 +155,8 @@ def exc_code(e):
         return Err(2, "IncompatibleTypes")
     if isinstance(e, dns.rdataset.DifferingCovers):
         return Err(3, "DifferingCovers")
+    if isinstance(e, dns.ttl.BadTTL):
+        return Err(23, "BadTTL")
     if isinstance(e, ValueError):
         return Err(1, "ValueError")
     if isinstance(e, TypeError):
@@ -360,6 +363,10 @@ def run_rds(uni, ops):
                 res = ids[id(regs[op[1]][op[2]])]
             elif k == 21:
                 del regs[op[1]][op[2]]
+            elif k == 23:
+                regs[op[1]].update_ttl(op[2].decode())
+            elif k == 24:
+                regs[op[1]].add(objs[op[2]], op[3].decode())
             elif k == 22:
                 rds_ = [objs[i] for i in op[4]]
                 if op[2] is not None:
@@ -884,6 +891,8 @@ def _impl(case):
 # ------------------------------------------------------------------ generators
 
 TTLS = [0, 1, 5, 60, 300, 3600, 86400, 2**31 - 1, 2**31, 2**32 - 1]
+TTL_TEXTS = [b"0", b"300", b"1h", b"1H30m", b"1w2d3h4m5s", b"4294967295", b"4294967296", b"", b"1x", b"h", b"12m3",
+             b"99999999999999999999", b"1d1d", b"007", b"5S"]
 NAMES = [[b"x", b""], [b"X", b""], [b"y", b""], [b"x"], [b""]]
 
 
@@ -1032,8 +1041,12 @@ def gen_rds_case(rng, nops):
 
     for _ in range(nops):
         r = rng.random()
-        if r < 0.25:
+        if r < 0.22:
             ops.append([5, reg(), rng.randrange(nu), ottl()])
+        elif r < 0.25:
+            ops.append([24, reg(), rng.randrange(nu), rng.choice(TTL_TEXTS)])
+        elif r < 0.27:
+            ops.append([23, reg(), rng.choice(TTL_TEXTS)])
         elif r < 0.29:
             ops.append([6, reg(), rng.choice(TTLS)])
         elif r < 0.32:
@@ -1439,6 +1452,20 @@ def oracle_set(case, out, fail):
         prev = cur
 
 
+def ref_ttl_text(b):
+    """BIND-style TTL text, written from the documentation of dns.ttl.from_text: digits, or
+    <n><unit> groups with units w d h m s (any case); 0..2**32-1; None = BadTTL"""
+    s = b.decode()
+    if s.isdigit():
+        v = int(s)
+    else:
+        m = re.fullmatch(r"(?:\d+[wdhmsWDHMS])+", s)
+        if not m:
+            return None
+        v = sum(int(n) * {"w": 604800, "d": 86400, "h": 3600, "m": 60, "s": 1}[u.lower()] for n, u in re.findall(r"(\d+)([wdhmsWDHMS])", s))
+    return v if 0 <= v <= 2**32 - 1 else None
+
+
 SINGLETONS = {6, 30, 39, 47, 5}
 SIGTYPES = {46, 24}
 
@@ -1473,6 +1500,16 @@ def oracle_rds(case, out, fail):
                 replaced = (k in (1, 2, 3, 4, 11, 22) and op[1] == i) or (k == 13 and op[2] == i)
                 if not replaced:
                     fail(what + f": ImmutableRdataset in register {i} changed", sig="immutable")
+        if op[0] in (23, 24) and op[1] < len(prev):
+            # the text form of a TTL is the number it denotes; a malformed text is refused (BadTTL)
+            tv = ref_ttl_text(op[-1])
+            if tv is None and prev[op[1]][0] != 1 and not (op[0] == 24 and (rec[op[2]][1], rec[op[2]][2]) != (prev[op[1]][1], prev[op[1]][2])):
+                if not (isinstance(res, Err) and res.code == 23) or cur != prev:
+                    fail(what + ": a malformed TTL text was not refused with BadTTL (or changed the set)", sig="ttl")
+                prev = cur
+                continue
+            if tv is not None:
+                op = [6, op[1], tv] if op[0] == 23 else [5, op[1], op[2], tv]
         k = op[0]
         touched = set()
         P = lambda i: prev[i]
